@@ -41,7 +41,7 @@ fn op_strat(which: Which) -> impl Strategy<Value = Op> {
         3 => (0usize..3, 0usize..BYTES_LENGTHS.len()).prop_map(|(r, l)| Op::Resize(r, l)),
         1 => (0usize..3, 0usize..9000, 1u8..=255).prop_map(|(r, p, v)| Op::Write(r, p, v)),
         2 => (0usize..3).prop_map(Op::Drop),
-        hl => (0usize..10).prop_map(Op::HighLevel),
+        hl => prop_oneof![8 => (0usize..10).prop_map(Op::HighLevel), 1 => (100usize..103).prop_map(Op::HighLevel)],
         2 => (0usize..4, 0usize..6).prop_map(|(s, l)| Op::Deserialize(s, l)),
         1 => (0usize..3).prop_map(Op::DropUnwinding),
         2 => (0usize..7).prop_map(Op::Wrapper),
@@ -196,6 +196,17 @@ pub fn worker(args: &[String]) -> i32 {
         }
         for k in 0..10 {
             det.push(History { array_len: None, ops: vec![Op::HighLevel(k), Op::HighLevel(k + 3)], fill: seed ^ k as u64 });
+        }
+        // many containers alive at once
+        for k in 100..103 {
+            det.push(History { array_len: None, ops: vec![Op::HighLevel(k)], fill: seed ^ k as u64 });
+        }
+    }
+    if which == Which::C19 {
+        // a long run of refused constructors in ONE process (per-process / per-thread state accumulated by the
+        // failure path shows up only after hundreds of refusals)
+        for ctor in [Ctor::FromSliceLocked, Ctor::GenROLocked] {
+            det.push(History { array_len: None, ops: (0..420).map(|i| Op::New { ctor, len_idx: 1 + i % 4 }).collect(), fill: seed ^ 0x5707 });
         }
     }
     let mut res: Result<(), Violation> = Ok(());
